@@ -754,11 +754,17 @@ func c01Huge(c *explore.C, tier universe.Tier) {
 	harness.Cur.Crumb(c.Choices())
 	hooks.Reset()
 	n := []int{4097, 65536, 70000}[ni]
+	if tier == universe.Quick {
+		n = []int{4097, 9000, 16500}[ni] // quick: beyond 4096 / 8192 / 16384; thorough: beyond 65535 too
+	}
 	var s *ref.Struct
 	var v *ref.Val
 	if si == len(shapes) {
 		s = mk(fd(1, ref.ReqDefault, sc(ref.KString)), fd(2, ref.ReqDefault, sc(ref.KBinary)))
 		l := []int{70000, 1 << 20, 65536}[ni]
+		if tier == universe.Quick {
+			l = []int{70000, 1 << 18, 65536}[ni]
+		}
 		b := make([]byte, l)
 		for i := range b {
 			b[i] = byte(i * 31)
